@@ -2,10 +2,10 @@
 (* Exhaustive check that the abstract timer semantics (TimersAbs) implies every clause of
    C08 / C09 as stated in TimersProp, for both flavours, with and without negative delay(). *)
 EXTENDS TimersProp, TLC
-CONSTANTS MaxCalls, Ds, NegMax, MaxNow, Depth
+CONSTANTS Flavours, MaxCalls, Ds, NegMax, MaxNow, Depth
 NegDs == {0 - k : k \in 1..NegMax}
 
-Init == \E f \in {"reactor", "clock"}, n \in BOOLEAN : InitWith([flavour |-> f, neg |-> n])
+Init == \E f \in Flavours, n \in BOOLEAN : InitWith([flavour |-> f, neg |-> n])
 
 NCallLater     == \E d \in Ds : PCallLater(d)
 NCancelOk      == \E i \in Ids : PCancelOk(i)
@@ -14,9 +14,9 @@ NResetOk       == \E i \in Ids, d \in Ds : PResetOk(i, d)
 NResetRefused  == \E i \in Ids : PResetRefused(i, 1)
 NDelayOk       == \E i \in Ids, d \in Ds \cup NegDs : PDelayOk(i, d)
 NDelayRefused  == \E i \in Ids : PDelayRefused(i, 1)
-NGdc           == last.e # "gdc" /\ PGdc
-NTimeout       == last.e # "timeout" /\ \E v \in 0..MaxNow, b \in BOOLEAN : PTimeout(v, b)
-NAdvanceReactor == \E d \in Ds : d > 0 /\ last.e # "adv" /\ PAdvanceReactor(d)
+NGdc           == PGdc
+NTimeout       == \E v \in 0..MaxNow, b \in BOOLEAN : PTimeout(v, b)
+NAdvanceReactor == \E d \in Ds : d > 0 /\ PAdvanceReactor(d)
 NIterBegin     == PIterBegin
 NAdvanceClock  == \E d \in Ds : PAdvanceClock(d)
 NRunBegin      == \E i \in Ids : PRunBegin(i)
